@@ -241,7 +241,7 @@ def run(tier, seed):
     from concurrent.futures import ThreadPoolExecutor
     ur = UnitResult('dfvc', 'z3-lira(standard-model)')
     fs, _ = dfinv.fields()
-    fl = [f for f in fs if f.is_float]
+    fl = [f for f in fs if f.is_float] + dfinv.bias_fields()   # + the three hand-written bias quantisers (C11 anchors, C16)
     work = os.path.join(common.scratch(), 'dfvc')
     os.makedirs(work, exist_ok=True)
     t0 = time.time()
@@ -258,6 +258,8 @@ def run(tier, seed):
             ur.tool_errors.append('dfvc: ' + err)
             continue
         for (suffix, props, st, detail, dt, model) in obs:
+            if getattr(f, 'hand_written', False):
+                props = set(props) | {'C16'}
             ob = Oblig('df.%s.%s' % (f.name, suffix), props, 'generated-vc', 'df::dfs::%s::{encode,decode}' % f.name, suffix)
             ur.solver_s += dt
             if st == 'failed':
